@@ -555,15 +555,94 @@ func c06EntryPoints(c *Ctx, text string) {
 	}
 }
 
+// c06Limits: the library documents depth limits (it returns an error instead of overflowing the
+// stack).  A call that fails on a limit must leave nothing behind: the largest expression that
+// succeeded before such failures must still succeed after them - compiled earlier, compiled
+// afresh, and one-shot - and the smallest failing one must still fail.
+func c06Limits(c *Ctx, idx int) {
+	mk := []func(n int) string{
+		func(n int) string { return "a" + strings.Repeat(" || a", n) },
+		func(n int) string { return "a" + strings.Repeat(".a", n) },
+		func(n int) string { return strings.Repeat("(", n) + "a" + strings.Repeat(")", n) },
+		func(n int) string { return strings.Repeat("[", n) + "a" + strings.Repeat("]", n) },
+		func(n int) string { return strings.Repeat("!", n) + "a" },
+		func(n int) string { return "a" + strings.Repeat(" | a", n) },
+		func(n int) string { return "a" + strings.Repeat(" && a", n) },
+		func(n int) string { return "a" + strings.Repeat("[?a]", n) },
+	}[idx%8]
+	var doc any = map[string]any{"a": "v"}
+	if idx%8 == 1 {
+		// a.a.a...: a document as deep as the chain
+		d := map[string]any{}
+		cur := d
+		for i := 0; i < 120000; i++ {
+			nx := map[string]any{}
+			cur["a"] = nx
+			cur = nx
+		}
+		doc = d
+	}
+	ok := func(n int) bool {
+		l := c.LibSearch(mk(n), doc)
+		return l.Panic == nil && l.Err == nil
+	}
+	if !ok(100) {
+		return
+	}
+	lo, hi := 100, 110000
+	if ok(hi) {
+		c.Count("limit_not_reached", 1)
+		return // no limit below 110000 for this shape: nothing to probe
+	}
+	for hi-lo > 1 {
+		mid := (lo + hi) / 2
+		if ok(mid) {
+			lo = mid
+		} else {
+			hi = mid
+		}
+	}
+	// lo succeeds, lo+1 fails
+	text := mk(lo)
+	e, lc := c.LibCompile(text)
+	if lc.Err != nil || lc.Panic != nil {
+		return
+	}
+	first := c.LibExprSearch(e, "limit expression", doc)
+	for round := 0; round < 4; round++ {
+		for _, over := range []int{lo + 1, lo + 2, lo + 500, 2 * lo} {
+			c.LibSearch(mk(over), doc)
+			if e2, l2 := c.LibCompile(mk(over)); l2.Err == nil && l2.Panic == nil {
+				c.LibExprSearch(e2, "over the limit", doc)
+			}
+		}
+		again := c.LibExprSearch(e, "limit expression", doc)
+		fresh := c.LibSearch(text, doc)
+		for which, l := range []LibOut{again, fresh} {
+			if !SameOutcome(first, l, false) {
+				c.Report(Violation{Rule: "C06/differs-from-fresh-search", Expr: clipS(text, 120), Got: ShowOut(l), Want: ShowOut(first), Detail: fmt.Sprintf("an expression of %d levels (the largest that succeeds) no longer gives the same outcome after %d rounds of calls that failed on the depth limit (%s)", lo, round+1, []string{"compiled before the failures", "one-shot"}[which]), Features: map[string]string{"stream": "limits"}})
+				return
+			}
+		}
+		if ok(lo + 1) {
+			c.Report(Violation{Rule: "C06/differs-from-fresh-search", Expr: clipS(mk(lo+1), 120), Got: "succeeds now", Want: "fails on the depth limit, as it did before", Features: map[string]string{"stream": "limits"}})
+			return
+		}
+	}
+	c.Nontrivial("limit", fmt.Sprint(idx%8), fmt.Sprint(lo))
+	c.Count(fmt.Sprintf("limit_shape_%d_levels", idx%8), int64(lo))
+}
+
 func init() {
 	Register(&Property{
 		ID:            "C06",
-		Rule:          "histories of 3-8 Expression.Search calls of one compiled expression over 2-4 documents with repeats (d1 dx d1 dy ...); expressions biased to functions and selectors that build or reorder containers (sort, sort_by, reverse, merge, group_by, from_items, to_array, [*], slices, flatten, multi-select, filters, literals returned by reference and then sorted/reversed/merged); plus a directed list (every ordering/reversing/merging function x every way of passing an array of the document or a literal without a copy: x, x[*], x[:], x[], x[?`true`], to_array(x), (x), x | @, ...); every slice of every document carries 1-3 spare capacity slots filled with canaries; per call: outcome = fresh one-shot Search of the same text on a deep copy, deep snapshot of every document unchanged (dynamic types, values, lengths, capacity tails, container identities), AST fingerprint of the compiled expression unchanged (hook), every earlier result still equal to the snapshot taken when it was returned; edited-in-place stream: the caller edits its document in place between calls (leaf replaced, elements/values swapped, member added or removed; container identities kept) and both Expression.Search and one-shot Search on those same containers must equal a fresh Search on a deep copy of the current content; foreign-containers stream: documents whose plain containers hold typed slices/maps, arrays, structs and pointers keep the same dynamic type and value at every position after every call; MustCompile panics exactly when Compile fails (corpus expressions, mutants, and members/non-members of 1 KB .. 1 MiB, for which Search, Compile+Search and MustCompile+Search must give one outcome); non-trivial = a history that returned a non-empty container; distinct by (expression, first document)",
+		Rule:          "histories of 3-8 Expression.Search calls of one compiled expression over 2-4 documents with repeats (d1 dx d1 dy ...); expressions biased to functions and selectors that build or reorder containers (sort, sort_by, reverse, merge, group_by, from_items, to_array, [*], slices, flatten, multi-select, filters, literals returned by reference and then sorted/reversed/merged); plus a directed list (every ordering/reversing/merging function x every way of passing an array of the document or a literal without a copy: x, x[*], x[:], x[], x[?`true`], to_array(x), (x), x | @, ...); every slice of every document carries 1-3 spare capacity slots filled with canaries; per call: outcome = fresh one-shot Search of the same text on a deep copy, deep snapshot of every document unchanged (dynamic types, values, lengths, capacity tails, container identities), AST fingerprint of the compiled expression unchanged (hook), every earlier result still equal to the snapshot taken when it was returned; edited-in-place stream: the caller edits its document in place between calls (leaf replaced, elements/values swapped, member added or removed; container identities kept) and both Expression.Search and one-shot Search on those same containers must equal a fresh Search on a deep copy of the current content; limits stream: for 8 nesting/chain shapes the largest expression that succeeds is found by bisection, then calls that fail on the documented depth limit are made, after which that expression (compiled before, compiled afresh, one-shot) must still give the same outcome; foreign-containers stream: documents whose plain containers hold typed slices/maps, arrays, structs and pointers keep the same dynamic type and value at every position after every call; MustCompile panics exactly when Compile fails (corpus expressions, mutants, and members/non-members of 1 KB .. 1 MiB, for which Search, Compile+Search and MustCompile+Search must give one outcome); non-trivial = a history that returned a non-empty container; distinct by (expression, first document)",
 		MinNontrivial: 1000,
 		Streams: []Stream{
 			{Name: "histories", N: func(c *Ctx) int { return tierN(c, 8000, 2000000) }, Run: c06History},
 			{Name: "directed", N: func(c *Ctx) int { return len(c07Directed()) }, Run: c06Directed, Exhaustive: true},
 			{Name: "edited-in-place", N: func(c *Ctx) int { return tierN(c, 5000, 1000000) }, Run: c06Edited},
+			{Name: "limits", N: func(c *Ctx) int { return 8 }, Run: c06Limits, Exhaustive: true},
 			{Name: "foreign-containers", N: func(c *Ctx) int { return tierN(c, 3000, 150000) }, Run: c06Foreign},
 			{Name: "mustcompile", N: func(c *Ctx) int { return tierN(c, 10000, 100000) }, Run: c06Must},
 		},
